@@ -13,7 +13,8 @@ EXTRA = {"C01_1": ["C07"], "C04_1": ["C16"], "C13_1": ["C08"], "C05_1": ["C01"],
          "C03_3": ["C05"], "C05_3": ["C04", "C09"], "C16_3": ["C04"], "C08_3": ["C07"], "C01_3": ["C07"], "C07_3": ["C06"],
          "C13_3": ["C17"], "C12_3": ["C10"], "C10_3": ["C12"], "C17_3": ["C11"],
          "C04_4": ["C16"], "C06_4": ["C11"], "C10_4": ["C12"], "C12_4": ["C10"], "C08_4": ["C13"], "C05_4": ["C04"],
-         "C03_5": ["C05", "C04"], "C04_5": ["C03"], "C05_5": ["C03"], "C07_5": ["C01"], "C08_5": ["C13"], "C11_5": ["C17"], "C13_5": ["C01"], "C09_5": ["C05"], "C10_5": ["C12"], "C07_6": ["C06"], "C14_6": ["C06"], "C08_6": ["C14"], "C11_6": ["C17"], "C02_7": ["C01", "C08", "C13"], "C09_7": ["C04", "C05"], "C13_7": ["C08", "C07"], "C12_7": ["C10"], "C10_7": ["C12"], "C16_7": ["C04"]}
+         "C03_5": ["C05", "C04"], "C04_5": ["C03"], "C05_5": ["C03"], "C07_5": ["C01"], "C08_5": ["C13"], "C11_5": ["C17"], "C13_5": ["C01"], "C09_5": ["C05"], "C10_5": ["C12"], "C07_6": ["C06"], "C14_6": ["C06"], "C08_6": ["C14"], "C11_6": ["C17"], "C02_7": ["C01", "C08", "C13"], "C09_7": ["C04", "C05"], "C13_7": ["C08", "C07"], "C12_7": ["C10"], "C10_7": ["C12"], "C16_7": ["C04"],
+         "C11_8": ["C07", "C06"], "C06_8": ["C14"], "C14_8": ["C06", "C08"], "C05_8": ["C04"], "C07_8": ["C06"], "C15_8": ["C11"]}
 
 
 def run(name):
